@@ -96,6 +96,37 @@ def job(j: dict) -> dict:
     return {"meta": meta, "runs": runs}
 
 
+def job_mixed(j: dict) -> dict:
+    """One directory with one file per language and a distinct limit per language; one run over the directory."""
+    drive.preload()
+    root = Path(j["root"])
+    root.mkdir(parents=True)
+    (root / ".git").mkdir()
+    per = {}
+    sec = ["nesting:", "  max_nesting_depth: 50"]
+    for n, lang in enumerate(j["order"]):
+        src, meta = render_file(lang, j["funcs"][lang], j["salt"] + n)
+        selfcheck(lang, src)
+        fname = f"{'abc'[n]}_probe." + R.EXT[lang]
+        (root / fname).write_text(src)
+        per[fname] = (lang, meta)
+        sec += [f"  {lang}:", f"    max_nesting_depth: {j['limits'][lang]}"]
+    (root / ".thailint.yaml").write_text("\n".join(sec) + "\n")
+    r = drive.cli_json(["nesting", "."] if j["salt"] % 2 else ["nesting", *sorted(per)], cwd=root)
+    if r["violations"] is None:
+        return {"error": f"no JSON (exit {r['exit']}): {r['stderr'][-300:]}"}
+    out = []
+    for fname, (lang, meta) in per.items():
+        rep = []
+        for v in r["violations"]:
+            if os.path.basename(v["file_path"]) != fname:
+                continue
+            m = MSG.search(v["message"])
+            rep.append([v["line"], int(m.group(2)) if m else -1, m.group(1) if m else "?"])
+        out.append({"lang": lang, "meta": meta, "runs": [{"L": j["limits"][lang], "reported": rep}]})
+    return {"files": out}
+
+
 def run(chk) -> None:
     quick = chk.tier == "quick"
     drive.preload()
@@ -128,7 +159,23 @@ def run(chk) -> None:
                          "root": str(scratch_root() / f"c01-{len(jobs)}")})
     log(f"C01: {sum(len(j['funcs']) for j in jobs)} functions in {len(jobs)} files")
     res = pool.run_jobs(job, jobs, nproc=NCPU, timeout=600)
+    # mixed-language directories: a distinct limit per language through per-language overrides, one run
+    mjobs = []
+    for k in range(40 if quick else 400):
+        order = ["python", "typescript", "rust"]
+        chk.rng.shuffle(order)
+        limits = dict(zip(["python", "typescript", "rust"], chk.rng.sample([1, 2, 3, 4], 3)))
+        mjobs.append({"order": order, "limits": limits, "salt": 1000 + k, "root": str(scratch_root() / f"c01-m{k}"),
+                      "funcs": {l: [by_lang[l][(k * 12 + i) % len(by_lang[l])] for i in range(12)] for l in order}})
+    mres = pool.run_jobs(job_mixed, mjobs, nproc=NCPU, timeout=600)
     records, meta = [], []
+    for j, r_ in zip(mjobs, mres):
+        if not r_.ok or "error" in r_.value:
+            raise MachineryError(f"C01 mixed-language job failed: {r_.error if not r_.ok else r_.value['error']}")
+        for f in r_.value["files"]:
+            records.append({"funcs": [{"toks": m["toks"], "line": m["line"]} for m in f["meta"]],
+                            "runs": [{"L": r2["L"], "reported": [[a, b] for a, b, _ in r2["reported"]]} for r2 in f["runs"]]})
+            meta.append(({"lang": f["lang"], "mixed": True, "limits": j["limits"]}, f))
     for j, r_ in zip(jobs, res):
         if not r_.ok:
             raise MachineryError(f"C01 job failed ({j['lang']}): {r_.error}")
